@@ -529,8 +529,12 @@ func (cm *BasicConnMgr) getConnsToClose() []network.Conn {
 		}
 		if len(inf.conns) == 0 && inf.temp {
 			// handle temporary entries for early tags -- this entry has gone past the grace period
-			// and still holds no connections, so prune it.
-			delete(s.peers, inf.id)
+			// and still holds no connections, so prune it. An overlapping trim (the periodic
+			// one does not take the trim mutex) may have pruned it already, and the peer may
+			// have connected since: only delete the entry if it is still this one.
+			if s.peers[inf.id] == inf {
+				delete(s.peers, inf.id)
+			}
 		} else {
 			for c := range inf.conns {
 				selected = append(selected, c)
